@@ -649,7 +649,9 @@ func (ex *Exec) implementsPred(it types.Type, tagExpr string) string {
 		return fmt.Sprintf("(not (= %s 0))", tagExpr)
 	}
 	name := "impl_" + typeName(it)
-	return ex.uf(name, []string{sInt}, sBool, tagExpr)
+	r := ex.uf(name, []string{sInt}, sBool, tagExpr)
+	ex.em.noteIface(it)
+	return r
 }
 
 func (ex *Exec) typeAssert(in *ssa.TypeAssert) Val {
